@@ -139,6 +139,50 @@ int main(int argc, char **argv)
         }
         flatcc_builder_aligned_free(buf);
     }
+    /* long runs of union vector members of kinds only B knows: A's printer emits `,null` per member and must still reach its flush points */
+    {
+        static const unsigned runs[] = {1, 12, 13, 14, 100, 400, 600, 820, 1000, 1700, 2500, 4000, 10000};
+        unsigned k, mode, i;
+        for (k = 0; k < sizeof(runs) / sizeof(runs[0]); ++k) for (mode = 0; mode < 2; ++mode) {
+            size_t size, jlen = 0, flen = 0; void *buf; int ra, rb, e1, e2; flatcc_json_printer_t pr; char *json, *ftext = 0; FILE *fp; unsigned N = runs[k];
+            flatcc_builder_reset(&Bd);
+            EvoB_Root_start_as_root(&Bd);
+            EvoB_Root_id_add(&Bd, (int)N);
+            EvoB_Root_anys_start(&Bd);
+            EvoB_Root_anys_push(&Bd, EvoB_Any_as_Leaf(leafB(&Bd, 1, 0)));
+            for (i = 0; i < N; ++i) switch (mode ? i % 4 : 0) {
+                case 0: EvoB_Root_anys_push(&Bd, EvoB_Any_as_Tag(EvoB_Tag_create(&Bd, (uint8_t)i))); break;
+                case 1: EvoB_Root_anys_push(&Bd, EvoB_Any_as_Tri(EvoB_Tri_create(&Bd, 1, 2, 3))); break;
+                case 2: EvoB_Root_anys_push(&Bd, EvoB_Any_as_Text(flatbuffers_string_create_str(&Bd, "x"))); break;
+                default: { EvoB_Extra_start(&Bd); EvoB_Root_anys_push(&Bd, EvoB_Any_as_Extra(EvoB_Extra_end(&Bd))); } break;
+            }
+            EvoB_Root_anys_push(&Bd, EvoB_Any_as_Leaf(leafB(&Bd, 2, 0)));
+            EvoB_Root_anys_end(&Bd);
+            EvoB_Root_end_as_root(&Bd);
+            buf = flatcc_builder_finalize_aligned_buffer(&Bd, &size);
+            ra = EvoA_Root_verify_as_root(buf, size); rb = EvoB_Root_verify_as_root(buf, size);
+            printf("R%u.%u verifyA=%d verifyB=%d\n", N, mode, ra, rb);
+            if (ra == 0 && rb == 0) {
+                flatcc_json_printer_init_dynamic_buffer(&pr, 0);
+                EvoA_Root_print_json_as_root(&pr, buf, size, 0);
+                json = flatcc_json_printer_finalize_dynamic_buffer(&pr, &jlen);
+                e1 = flatcc_json_printer_get_error(&pr);
+                flatcc_json_printer_clear(&pr);
+                fp = tmpfile();
+                flatcc_json_printer_init(&pr, fp);
+                EvoA_Root_print_json_as_root(&pr, buf, size, 0);
+                flatcc_json_printer_flush(&pr);
+                e2 = flatcc_json_printer_get_error(&pr);
+                flatcc_json_printer_clear(&pr);
+                flen = (size_t)ftell(fp); rewind(fp); ftext = malloc(flen + 1); flen = fread(ftext, 1, flen, fp); fclose(fp);
+                printf("R%u.%u printA err=%d len=%d file=%s text=", N, mode, e1, (int)(json ? jlen : 0),
+                       e2 ? "error" : (json && flen == jlen && !memcmp(ftext, json, jlen)) ? "same" : "DIFF");
+                { size_t q; for (q = 0; json && q < jlen; ++q) printf("%02x", (unsigned char)json[q]); } printf("\n");
+                free(json); free(ftext);
+            }
+            flatcc_builder_aligned_free(buf);
+        }
+    }
     flatcc_builder_clear(&Bd);
     return 0;
 }
